@@ -18,6 +18,7 @@ def parseLockScope (s : String) : P LockScope :=
   | "outerPerUnit" => pure (.outerPerKey (·.unit))
   | "none" => pure .none
   | "sendOnly" => pure .sendOnly
+  | "leakOnFail" => pure .leakOnFail
   | o => throw s!"bad lock scope {o}"
 
 def jSMsg : Msg → Json
@@ -35,7 +36,8 @@ def inFlightCount (s : State) (n : Nat) : Nat :=
   ((List.range n).filter (fun t => (s.threads t).inFlight)).length
 
 /-- `sched`: run a schedule on the model.
-    in:  scope, connected (the client was connected before the threads started), threads = [[req…]…],
+    in:  scope, connected (the client was connected before the threads started), fail = [k…] / fail_all (which
+         `create_connection` calls are refused), threads = [[req…]…],
          sched = [thread id…], macro = true (one entry = one harness step: the operation
          and the plain code up to the next yield point) | false (one entry = one model operation)
     out: the trace, the wire, per-thread results, the Spec verdicts on this run -/
@@ -47,7 +49,15 @@ def opSched (j : Json) : P Json := do
   let sched ← (← fArr j "sched").mapM nat
   let isMacro ← fBool j "macro"
   let connected ← fBool j "connected"
-  let mut s := init reqs connected
+  -- the scripted world: which `create_connection` calls fail (0-based indices; `fail_all` = every one)
+  let fails ← match optFld j "fail" with
+    | some f => nats f
+    | Option.none => pure []
+  let failAll ← match optFld j "fail_all" with
+    | some f => bool f
+    | Option.none => pure false
+  let connOk : Nat → Bool := fun k => !failAll && !(fails.contains k)
+  let mut s := init reqs connected connOk
   let mut fine : List Nat := []
   let mut maxFlight := 0
   let mut stutter : List Nat := []
@@ -77,8 +87,12 @@ def opSched (j : Json) : P Json := do
   let ths := (List.range n).map s.threads
   let finished := ths.all (·.done)
   let anyRunnable := (List.range n).any (runnable scope s)
+  -- Spec.Answered: own reply, or the connection exception when some connection attempt is refused in this world
+  let anyRefused := failAll || !fails.isEmpty
   let served := (List.range n).all (fun t =>
-    decide (((s.threads t).results.map (·.1)) = reqs t) && (s.threads t).results.all (fun x => decide (Spec.OwnReply x)))
+    decide (((s.threads t).results.map (·.1)) = reqs t) &&
+    (s.threads t).results.all (fun x =>
+      decide (Spec.OwnReply x) || (anyRefused && decide (x.2.2 = Result.raised PyErr.modbusExc))))
   pure (Json.mkObj [
     ("trace", jArr (s.trace.reverse.map (fun e => jArr [jNat e.1, Json.str e.2.name]))),
     ("wire", jArr (s.wire.map (fun c => jArr [jNat c.thread, jB01 c.first, jNat c.conn, jNats c.bytes]))),
@@ -92,7 +106,7 @@ def opSched (j : Json) : P Json := do
     ("fine", jNats fine.reverse), ("stutter", jNats stutter.reverse),
     ("finished", jB01 finished), ("deadlock", jB01 (!finished && !anyRunnable)),
     ("runnable", jNats ((List.range n).filter (runnable scope s))),
-    ("work", jNat (totalWork scope (init reqs connected) n)),
+    ("work", jNat (totalWork scope (init reqs connected connOk) n)), ("attempts", jNat s.attempts),
     ("spec_max_in_flight", jNat maxFlight), ("spec_exclusive", jB01 (maxFlight ≤ 1)),
     ("spec_contiguous", jB01 (Spec.contiguous s.wire)), ("spec_served", jB01 served)])
 
